@@ -373,9 +373,12 @@ class _Sequence(DERType):
         offset = 0
         length = len(content)
 
+        # Avoid copying the rest of the content for each item
+        view = memoryview(content)
+
         value = []
         while offset < length:
-            item, consumed = der_decode_partial(content[offset:])
+            item, consumed = der_decode_partial(view[offset:])
             value.append(item)
             offset += consumed
 
@@ -403,9 +406,12 @@ class _Set(DERType):
         offset = 0
         length = len(content)
 
+        # Avoid copying the rest of the content for each item
+        view = memoryview(content)
+
         value = set()
         while offset < length:
-            item, consumed = der_decode_partial(content[offset:])
+            item, consumed = der_decode_partial(view[offset:])
             value.add(item)
             offset += consumed
 
@@ -746,7 +752,7 @@ def _der_decode_partial(data: bytes) -> Tuple[object, int]:
         raise ASN1DecodeError('Indefinite length not allowed')
 
     end = offset + length
-    content = data[offset:end]
+    content = bytes(data[offset:end])
 
     if end > len(data):
         raise ASN1DecodeError('Incomplete data')
